@@ -93,6 +93,9 @@ static void body(void) {
    * divided by the square root of its NUMBER OF VARIABLES, as the statement says) */
   { int cc = vx_choose_dev("constcol", 2); if (cc) { int b0 = -1; for (int b = 0; b < nb && b0 < 0; b++) if (w[b] >= 2) b0 = b; vx_require(b0 >= 0);
       for (int i = 0; i < n; i++) X_[i * ptot + col0[b0] + w[b0] - 1] = 2.5; } }
+  /* data in small units (everything x 1e-6, centred only or Pareto): the decomposition is scale-equivariant, every allowance
+   * below is relative, so only a stopping rule or guard that is absolute in the data units can tell the difference */
+  { int un = vx_choose_dev("units", 2); if (un) { vx_require(scaling == 0 || scaling == 2); for (int i = 0; i < n * ptot; i++) X_[i] *= 1e-6; } }
   tensor *x; NewTensor(&x, (size_t)nb);
   for (int b = 0; b < nb; b++) { NewTensorMatrix(x, (size_t)b, (size_t)n, (size_t)w[b]); for (int i = 0; i < n; i++) for (int j = 0; j < w[b]; j++) x->m[b]->data[i][j] = X_[i * ptot + col0[b] + j]; }
 
@@ -275,7 +278,7 @@ static void body(void) {
 int main(int argc, char **argv) {
   vg_seed(getenv("VERIF_SEED") ? atol(getenv("VERIF_SEED")) : 0);
   build_tuples();
-  vx_describe("alphabet", "blocks 2..4, widths all tuples over {1,2,3,5,8} with total <= 12 (%d/%d/%d tuples), objects {5,8,30} [+6,13], scaling 0..5, X = U diag(ratio^i) V' (ratio .3|.6, U'1=0) scaled to min column SD 0.5 + offsets (1,-7.5,2.5,40), 1 [4] instances, npc 1..min(block width, rank), nproc {1,3}", NTUP[0], NTUP[1], NTUP[2]);
+  vx_describe("alphabet", "blocks 2..4, widths all tuples over {1,2,3,5,8} with total <= 12 (%d/%d/%d tuples), objects {5,8,30} [+6,13], scaling 0..5, X = U diag(ratio^i) V' (ratio .3|.6, U'1=0) scaled to min column SD 0.5 + offsets (1,-7.5,2.5,40), deviations {one constant column, all data x 1e-6 with scaling 0/2}, 1 [4] instances, npc 1..min(block width, rank), nproc {1,3}", NTUP[0], NTUP[1], NTUP[2]);
   vx_describe("oracle", "super score k = +/- reference principal score of Z=[E_b/sqrt(w_b)] within sigma_1*(5k*delta/(1-r)^2 + rounding floor), delta=sqrt(n*1e-18); total_expvar = 100 lambda_k/trace; |w|=1; super = block scores * weights; block loadings = E_b't/t't; block scores = E_b p_b/(|p_b| sqrt w_b) (convergence allowance); block_expvar in [0,100], non-decreasing, = cumulative fraction; CPCAScorePredictor(training) = super scores; CPCAScorePredictor into reused outputs (same shape, one or both dimensions different) = result with fresh outputs, bit for bit (block scores: trailing blocks, append convention); secondarily library PCA(Z) with both allowances, keyed by lambda_k<10");
   vx_set_shard_depth(2);
   vx_expect_outcomes(40);   /* low on purpose: a library that returns the same (e.g. all-zero) model for every input of a shape must surface as violations, not as a vacuity error */
